@@ -245,3 +245,55 @@ def run(job):
             except Exception as e:
                 job.case(f"compound/{name}-rejected", (repr(q), repr(rate), why),
                          False, repr(e), "QuantityError")
+
+    # the same rate object used in the valid and then in the wrong direction
+    # on one compound unit (nothing remembered from the first use)
+    for q in (8 * eur_kg, Fraction(1, 3) * eur_g):
+        x = r * q
+        job.case("compound/mul-then-wrong-direction", repr(q),
+                 x.unit is usd_kg, repr(x), "")
+        for name, fn in (("div", lambda: q / r),):
+            try:
+                y = fn()
+                job.case(f"compound/{name}-rejected",
+                         (repr(q), repr(r), "currency does not match (after a "
+                                            "valid use of the same rate)"),
+                         False, repr(y), "QuantityError")
+            except QuantityError:
+                job.case(f"compound/{name}-rejected", (repr(q), repr(r), "after"),
+                         True)
+        q2 = 8 * usd_kg
+        y = q2 / r
+        job.case("compound/div-after-mul", repr(q2),
+                 y.unit is eur_kg and O.F(y.amount) == 8 * O.F(r.inverse_rate),
+                 repr(y), "")
+        try:
+            z = r * q2
+            job.case("compound/mul-rejected", (repr(q2), repr(r), "after div"),
+                     False, repr(z), "QuantityError")
+        except QuantityError:
+            job.case("compound/mul-rejected", (repr(q2), repr(r), "after div"), True)
+    # a money-per-X type nested in another compound type
+    Fee = QuantityMeta(W.uid("StorageFee"), (Quantity,), {},
+                       define_as=PPM / P.Duration)
+    eur_kg_d = Fee.derive_unit_from(eur_kg, P.DAY)
+    usd_kg_d = Fee.derive_unit_from(usd_kg, P.DAY)
+    for a in (Decimal("2.5"), Fraction(1, 7)):
+        fee = a * eur_kg_d
+        for name, fn in (("mul", lambda: fee * r), ("rmul", lambda: r * fee)):
+            try:
+                x = fn()
+                job.case(f"compound/nested-{name}", repr(fee),
+                         x.unit is usd_kg_d and
+                         O.F(x.amount) == O.F(a) * O.F(r.rate), repr(x), "")
+            except Exception as e:
+                job.case(f"compound/nested-{name}", repr(fee), False, repr(e),
+                         "a fee in USD/kg/d")
+        try:
+            back = (a * usd_kg_d) / r
+            job.case("compound/nested-div", repr(a),
+                     back.unit is eur_kg_d and
+                     O.F(back.amount) == O.F(a) * O.F(r.inverse_rate),
+                     repr(back), "")
+        except Exception as e:
+            job.case("compound/nested-div", repr(a), False, repr(e), "a fee in EUR/kg/d")
